@@ -2,7 +2,9 @@ package main
 
 // C13, `cmd` cases: the whole `esc run` command (cobra command built by cli.New) against an in-memory world:
 // a fake client that returns a scripted opened environment, a fake file system, and a fake command runner that
-// records the arguments it is given and writes a scripted byte stream to the (filtered) stdout in scripted chunks.
+// records the arguments it is given, writes a scripted byte stream (its arguments, a newline, a script) to one of the
+// (filtered) output streams and a second script to the other one, in scripted chunks, and then ends as scripted:
+// exit status 0, a failure after all output is written (non-zero exit status), or a failure to start (nothing written).
 
 import (
 	"bytes"
@@ -113,18 +115,28 @@ func (c13Environ) Vars() []string    { return nil }
 
 // ---- the command runner ----------------------------------------------------------------------------
 type c13Exec struct {
-	script []byte // bytes written after the argument line
-	sizes  []int  // chunk sizes, cycled
-	toErr  bool   // write to stderr instead of stdout
-	args   []string
-	ran    bool
+	script  []byte // bytes written after the argument line
+	script2 []byte // bytes written to the other stream
+	sizes   []int  // chunk sizes, cycled
+	toErr   bool   // arguments and script go to stderr, script2 to stdout (instead of the other way round)
+	outcome string // "ok", "fail" (error after the output is written), "nostart" (error, nothing written)
+	args    []string
+	ran     bool
 }
+
+// c13ExitError stands for *exec.ExitError (which cannot be built outside os/exec with a chosen status).
+type c13ExitError struct{}
+
+func (c13ExitError) Error() string { return "exit status 3" }
 
 func (*c13Exec) LookPath(command string) (string, error) { return command, nil }
 
 func (e *c13Exec) Run(cmd *exec.Cmd) error {
 	e.ran = true
 	e.args = append([]string(nil), cmd.Args[1:]...)
+	if e.outcome == "nostart" {
+		return errors.New("fork/exec: cannot start the command")
+	}
 	var stream []byte
 	for i, a := range e.args {
 		if i > 0 {
@@ -134,28 +146,38 @@ func (e *c13Exec) Run(cmd *exec.Cmd) error {
 	}
 	stream = append(stream, '\n')
 	stream = append(stream, e.script...)
-	w := cmd.Stdout
+	w, w2 := cmd.Stdout, cmd.Stderr
 	if e.toErr {
-		w = cmd.Stderr
+		w, w2 = w2, w
 	}
-	for i := 0; len(stream) > 0; i++ {
+	// the two streams are written alternately, chunk by chunk
+	rest := [2][]byte{stream, append([]byte(nil), e.script2...)}
+	ws := [2]io.Writer{w, w2}
+	for i := 0; len(rest[0]) > 0 || len(rest[1]) > 0; i++ {
+		k := i % 2
+		if len(rest[k]) == 0 {
+			continue
+		}
 		n := 1
 		if len(e.sizes) > 0 {
-			n = e.sizes[i%len(e.sizes)]
+			n = e.sizes[(i/2)%len(e.sizes)]
 		}
-		if n > len(stream) {
-			n = len(stream)
+		if n > len(rest[k]) {
+			n = len(rest[k])
 		}
 		if n < 0 {
 			n = 0
 		}
-		if _, err := w.Write(stream[:n]); err != nil {
+		if _, err := ws[k].Write(rest[k][:n]); err != nil {
 			return err
 		}
-		stream = stream[n:]
-		if n == 0 && i > 1000000 {
+		rest[k] = rest[k][n:]
+		if i > 100000000 {
 			return errors.New("chunk sizes make no progress")
 		}
+	}
+	if e.outcome == "fail" {
+		return c13ExitError{}
 	}
 	return nil
 }
@@ -222,8 +244,9 @@ func c13Cmd(c map[string]any) map[string]any {
 	props, _ := root.Value.(map[string]esc.Value)
 	env := &esc.Environment{Properties: props}
 
-	ex := &c13Exec{toErr: c["stderr"] == true}
+	ex := &c13Exec{toErr: c["stderr"] == true, outcome: str(c, "outcome")}
 	ex.script, _ = hex.DecodeString(str(c, "script"))
+	ex.script2, _ = hex.DecodeString(str(c, "script2"))
 	if l, ok := c["sizes"].([]any); ok {
 		for _, x := range l {
 			if n, ok := x.(json.Number); ok {
